@@ -13,18 +13,23 @@
   the seed on; C16's stream theorem carries this across refills (the seed of a refill is an occurrence).
 
   Status: SECONDLY, MINUTELY, HOURLY, DAILY, WEEKLY — proved in full, BYSETPOS included.
-          MONTHLY, YEARLY — see the end of the file.
+          MONTHLY, YEARLY — proved, BYSETPOS and the refill included, for the RFC rule language minus two classes in which the
+          code is wrong (recorded findings D125, D129; `MlySup`, `YlySup` spell the classes out): the theorems carry
+          `_partial` in their names for that reason.  SHIFT and BYEASTER are echse's own extensions and are C17's matter
+          (`r.shift = 0`, `r.easter = []` here).
   The proofs are in Echse/Lemmas/RrSubRfc*, RrSlyRfc*, RrMnlyRfc*, RrHlyRfc*, RrRfcBase*, RrRfcPos*, RrDlyRfc*, RrDlyPos*,
-  RrWlyRfc*, RrWlyPos*.
+  RrWlyRfc*, RrWlyPos*, RrCandRfc*, RrCandPos*, RrMlyRfc*, RrMlyPos*, RrMlyReseed, RrYlyRfc*, RrYlyPos*, RrYlyReseed.
 -/
 import Echse.Lemmas.RrSlyRfc3
 import Echse.Lemmas.RrMnlyRfc4
 import Echse.Lemmas.RrHlyRfc4
 import Echse.Lemmas.RrDlyRfc
 import Echse.Lemmas.RrWlyRfc
+import Echse.Lemmas.RrMlyReseed
+import Echse.Lemmas.RrYlyReseed
 namespace C01
 open Echse.Rrule Echse.Instant Echse.Spec.RrOk Echse.Spec.Rfc
-open Echse.Lemmas.RrSubRfc Echse.Lemmas.RrRfc
+open Echse.Lemmas.RrSubRfc Echse.Lemmas.RrRfc Echse.Lemmas.RrMlyRfc Echse.Lemmas.RrYlyRfc
 
 /-- hypotheses shared by all statements: a parser-producible Gregorian rule, a sane seed in the years in which echse's
 leap rule is the Gregorian one, and no BYHOUR/BYMINUTE/BYSECOND on a DATE-valued seed (RFC 5545 forbids them there;
@@ -107,5 +112,85 @@ theorem seedT_of_timed (p : Inst) (h : p.H ≠ allDay) : seedT p = p := by unfol
 /-! ### the daily filler's hand-over to the weekly one is sound -/
 theorem weekly_of_daily {r : Rule} {p x : Inst} (h1 : plainDays r ≠ []) (h2 : r.inter = 1) (hx : DailyInst r p x) :
     WeeklyInst r p x := Echse.Lemmas.RrDlyRfc.weekly_of_daily h1 h2 hx
+
+/-! ### FREQ=MONTHLY
+  `MlySup r`: at most 62 BYMONTHDAY values (what the parser's set holds) and no numbered BYDAY entry (1MO, -1FR) next to
+  BYMONTHDAY — there the code ignores the numbers (finding D125).  `MlyFirstPos r p` (completeness only): the rule has an
+  occurrence within its first 336 periods from the seed; the code gives up after 337 fruitless months, exactly one more than
+  the 336 months after which month lengths and weekdays repeat, so there is no slack to argue with — the hypothesis is
+  discharged when the seed is itself an occurrence (`monthly_none_missing_sync_partial`), which is the case at every refill. -/
+
+theorem monthly_none_extra_partial (r : Rule) (p : Inst) (n : Nat) (l : List Inst) (h0 : Pre r p) (hn : n ≤ 64)
+    (hsup : MlySup r) (hsh : r.shift = 0) (hf : r.pos ≠ [] → r.freq = 2) (h : fillMly r p n = some l) :
+    ∀ x ∈ l, MonthlyInst r p x ∧ SetposOk r p x :=
+  fillMly_sound_all r p n l h0.rule h0.seed h0.kind hn h0.year hsup hsh hf h
+
+theorem monthly_none_missing_partial (r : Rule) (p : Inst) (n : Nat) (l : List Inst) (h0 : Pre r p) (hn : n ≤ 64)
+    (hsup : MlySup r) (hsh : r.shift = 0) (hf : r.pos ≠ [] → r.freq = 2) (hfp : MlyFirstPos r p)
+    (h : fillMly r p n = some l)
+    (x : Inst) (hx : MonthlyInst r p x) (hsp : SetposOk r p x) (hge : absOf p ≤ absOf x)
+    (hle : ltP r.untl x = false) (hxy : x.y ≤ 2099) :
+    x ∈ l ∨ (l.length = capOf r n ∧ ∀ z ∈ l, ltP z x = true) :=
+  fillMly_complete_all r p n l h0.rule h0.seed h0.kind hn h0.year hsup hsh hf hfp h x hx hsp hge hle hxy
+
+/-- without BYSETPOS a seed that is an occurrence needs no `MlyFirstPos` -/
+theorem monthly_none_missing_sync_partial (r : Rule) (p : Inst) (n : Nat) (l : List Inst) (h0 : Pre r p) (hn : n ≤ 64)
+    (hsup : MlySup r) (hsh : r.shift = 0) (hpos : r.pos = []) (hsync : MonthlyInst r p p) (h : fillMly r p n = some l)
+    (x : Inst) (hx : MonthlyInst r p x) (hge : absOf p ≤ absOf x) (hle : ltP r.untl x = false) (hxy : x.y ≤ 2099) :
+    x ∈ l ∨ (l.length = capOf r n ∧ ∀ z ∈ l, ltP z x = true) :=
+  fillMly_complete_sync r p n l h0.rule h0.seed h0.kind hn h0.year hsup hsh hpos hsync h x hx hge hle hxy
+
+/-- across a refill: the seed `p` is an occurrence of (`ds`, rule); what the call writes are occurrences of (`ds`, rule) … -/
+theorem monthly_refill_none_extra_partial (r : Rule) (ds p : Inst) (n : Nat) (l : List Inst) (h0 : Pre r p) (hn : n ≤ 64)
+    (hsup : MlySup r) (hsh : r.shift = 0) (hf : r.pos ≠ [] → r.freq = 2) (hseed : MonthlyInst r ds p)
+    (h : fillMly r p n = some l) : ∀ x ∈ l, MonthlyInst r ds x ∧ SetposOk r ds x :=
+  fillMly_sound_reseed r ds p n l h0.rule h0.seed h0.kind hn h0.year hsup hsh hf hseed h
+
+/-- … and none from the seed on is left out -/
+theorem monthly_refill_none_missing_partial (r : Rule) (ds p : Inst) (n : Nat) (l : List Inst) (h0 : Pre r p) (hn : n ≤ 64)
+    (hsup : MlySup r) (hsh : r.shift = 0) (hf : r.pos ≠ [] → r.freq = 2) (hseed : MonthlyInst r ds p)
+    (hfp : MlyFirstPos r p) (h : fillMly r p n = some l)
+    (x : Inst) (hx : MonthlyInst r ds x) (hsp : SetposOk r ds x) (hge : absOf p ≤ absOf x)
+    (hle : ltP r.untl x = false) (hxy : x.y ≤ 2099) :
+    x ∈ l ∨ (l.length = capOf r n ∧ ∀ z ∈ l, ltP z x = true) :=
+  fillMly_complete_reseed r ds p n l h0.rule h0.seed h0.kind hn h0.year hsup hsh hf hseed hfp h x hx hsp hge hle hxy
+
+/-! ### FREQ=YEARLY
+  `YlySup r`: no BYEASTER, at most 62 BYMONTHDAY and 12 BYMONTH values, BYDAY ordinals not below -53, and one of the
+  combinations of parts the code expands the way RFC 5545 says (`YlyCombo`): none or BYMONTH alone; BYMONTHDAY (with or
+  without BYMONTH, plain BYDAY as a limit); BYYEARDAY (plain BYDAY as a limit); BYDAY (with or without BYMONTH, numbered
+  entries allowed); BYWEEKNO (with or without plain BYDAY).  Left out: BYWEEKNO or BYYEARDAY next to BYMONTH / BYMONTHDAY /
+  each other, where the code yields a union (finding D129), and numbered BYDAY as a limit (D125).  No "first occurrence"
+  hypothesis is needed: the calendar repeats after 28 years and the code tries 63 of them. -/
+
+theorem yearly_none_extra_partial (r : Rule) (p : Inst) (n : Nat) (l : List Inst) (h0 : Pre r p) (hn : n ≤ 64)
+    (hsup : YlySup r) (hsh : r.shift = 0) (hf : r.pos ≠ [] → r.freq = 1) (h : fillYly r p n = some l) :
+    ∀ x ∈ l, YearlyInst r p x ∧ SetposOk r p x :=
+  fillYly_sound_all r p n l h0.rule h0.seed h0.kind hn h0.year hsup hsh hf h
+
+theorem yearly_none_missing_partial (r : Rule) (p : Inst) (n : Nat) (l : List Inst) (h0 : Pre r p) (hn : n ≤ 64)
+    (hsup : YlySup r) (hsh : r.shift = 0) (hf : r.pos ≠ [] → r.freq = 1) (h : fillYly r p n = some l)
+    (x : Inst) (hx : YearlyInst r p x) (hsp : SetposOk r p x) (hge : absOf p ≤ absOf x)
+    (hle : ltP r.untl x = false) (hxy : x.y ≤ 2099) :
+    x ∈ l ∨ (l.length = capOf r n ∧ ∀ z ∈ l, ltP z x = true) :=
+  fillYly_complete_all r p n l h0.rule h0.seed h0.kind hn h0.year hsup hsh hf h x hx hsp hge hle hxy
+
+theorem yearly_refill_none_extra_partial (r : Rule) (ds p : Inst) (n : Nat) (l : List Inst) (h0 : Pre r p) (hn : n ≤ 64)
+    (hsup : YlySup r) (hsh : r.shift = 0) (hf : r.pos ≠ [] → r.freq = 1) (hseed : YearlyInst r ds p)
+    (h : fillYly r p n = some l) : ∀ x ∈ l, YearlyInst r ds x ∧ SetposOk r ds x :=
+  fillYly_sound_reseed r ds p n l h0.rule h0.seed h0.kind hn h0.year hsup hsh hf hseed h
+
+theorem yearly_refill_none_missing_partial (r : Rule) (ds p : Inst) (n : Nat) (l : List Inst) (h0 : Pre r p) (hn : n ≤ 64)
+    (hsup : YlySup r) (hsh : r.shift = 0) (hf : r.pos ≠ [] → r.freq = 1) (hseed : YearlyInst r ds p)
+    (h : fillYly r p n = some l)
+    (x : Inst) (hx : YearlyInst r ds x) (hsp : SetposOk r ds x) (hge : absOf p ≤ absOf x)
+    (hle : ltP r.untl x = false) (hxy : x.y ≤ 2099) :
+    x ∈ l ∨ (l.length = capOf r n ∧ ∀ z ∈ l, ltP z x = true) :=
+  fillYly_complete_reseed r ds p n l h0.rule h0.seed h0.kind hn h0.year hsup hsh hf hseed h x hx hsp hge hle hxy
+
+/-! the hypotheses are satisfiable: an ordinary rule of each kind -/
+example : MlySup { freq := 2, dom := [15, -1], dow := [] } := ⟨by decide, by intro _ t ht; cases ht⟩
+example : YlySup { freq := 1, mon := [3, 10], dow := [-1 * 8 + 7] } :=
+  ⟨rfl, by decide, by decide, by decide, Or.inr (Or.inr (Or.inr (Or.inl ⟨rfl, rfl, rfl, by decide⟩)))⟩
 
 end C01
